@@ -1306,6 +1306,11 @@ def one_sequence(ctx, seed_note, size, n_steps, steps=None, build_seed=None):
             closed_check("right after the step")
             world = W.canon(dumper.dump([cur, res]))
             check_result(step, cur_world, world, 1, fail)
+            if step["op"] == "clone":
+                # REFINEMENT (Props/C14_refine.lean `clone_refines`): a clone has exactly the by-name dump of its source
+                b0, b1 = W.byname(world, 0), W.byname(world, 1)
+                if b0 != b1:
+                    fail("result-differs:by-name-dump:clone", "dump(clone(s)) != dump(s) by name: %s" % W.first_diff(b0, b1))
             check_leaf_behaviour(step, cur, res, fail)
             tracked.append(track_registered(step, tracked[si], res, fail))
             tracked_sub.append(track_registered(step, tracked_sub[si], res, fail))
@@ -1352,6 +1357,17 @@ def one_sequence(ctx, seed_note, size, n_steps, steps=None, build_seed=None):
                        or (sig.startswith("step-raises:") and res is None) for sig, _ in found):
                 break
     hard = any(not sig.startswith(("registry:", "step-raises:", "result-unusable:runtime-type-object-of-another-schema:")) for sig, _ in failures)
+    if not hard:
+        try:
+            wc = W.canon(dumper.dump([source, source.clone()]))
+            b0, b1 = W.byname(wc, 0), W.byname(wc, 1)
+            ctx.count()
+            ctx.stat("refinement:dump(clone(source))==dump(source)")
+            if b0 != b1 and not any(s0 == "result-differs:by-name-dump:clone" for s0, _ in failures):
+                failures.append(("result-differs:by-name-dump:clone", "dump(clone(s)) != dump(s) by name: %s" % W.first_diff(b0, b1)))
+        except Exception as x:  # noqa
+            if not any(s0.startswith("step-raises:clone") for s0, _ in failures):
+                failures.append(("step-raises:clone:%s" % type(x).__name__, "source.clone() raised %s" % x))
     if not hard and not ctx.out_of_time() and (seed % 2 == 0 or not lazy):
         extra = []
 
@@ -1419,7 +1435,7 @@ def run(ctx):
     ctx.extra["code_variant"] = cfg
     ctx._c14_cfg = cfg
     ctx._c14_reg_cases = []
-    n_seq = ctx.n(40, 380)
+    n_seq = ctx.n(40, 330)
     budget_each = 0.8
     batch = []
     seen_sigs = set()
